@@ -351,6 +351,11 @@ func runC06Client(c *c06Case) *c06Obs {
 	if !strings.HasPrefix(c.Stage, "finishing-said") {
 		obs.Reached = obs.StateAt == want[c.Stage]
 	}
+	if c.Stage == "failed-after-established" || c.Stage == "failed-handshake" {
+		// the peer has sent the failed session and everything has settled: the session has failed, whatever the channel
+		// made of the envelope
+		obs.Reached = true
+	}
 	doSends(cc, c.Ops, obs)
 	synctest.Wait()
 	peer.Drain()
